@@ -38,6 +38,9 @@ pub struct Case {
     pub refusal: Refusal,
     pub abs_rd: bool,
     pub seed: u64,
+    /// an older, longer file already sits at the destination (download: in the client's receive directory; upload: on an --overwrite server)
+    #[serde(default)]
+    pub stale_dest: bool,
 }
 
 fn run_client(args: &[String], cwd: &Path, limit: Duration) -> Result<(String, String), String> {
@@ -94,6 +97,15 @@ fn run_case(dir: &Path, c: &Case) -> Result<(), (String, String)> {
         Style::Nested => "sub/f.bin".to_string(),
         Style::Windows => "sub\\f.bin".to_string(),
     };
+    let stale = c.stale_dest && c.refusal == Refusal::None;
+    if stale {
+        let old = vec![0x55u8; data.len() + 3000];
+        if c.upload {
+            std::fs::write(recv.join("f.bin"), &old).unwrap();
+        } else {
+            std::fs::write(cout.join("f.bin"), &old).unwrap();
+        }
+    }
     if c.upload {
         std::fs::write(cdir.join(&rel_unix), &data).unwrap();
         if c.refusal == Refusal::Exists {
@@ -108,6 +120,9 @@ fn run_case(dir: &Path, c: &Case) -> Result<(), (String, String)> {
     }
     if c.refusal == Refusal::ReadOnly {
         args.push(wire::s("-r"));
+    }
+    if stale && c.upload {
+        args.push(wire::s("--overwrite"));
     }
     let ip = if c.ipv6 { "::1" } else { "127.0.0.1" };
     let mut srv = match Server::start_on(ip, &args, &root, None) {
@@ -192,6 +207,7 @@ pub fn judge(dir: &Path, c: &Case, obs: &mut Obs) -> Judge {
     });
     let blocks = c.len / c.blk + 1;
     obs.class_if(blocks > 65535, "beyond-65535-blocks");
+    obs.class_if(c.stale_dest && c.refusal == Refusal::None, "older-longer-file-at-destination");
     obs.class_if(c.len % c.blk == 0 && c.len > 0, "exact-multiple");
     obs.nontrivial = c.blk != 512 || c.ws != 1 || blocks >= 2;
     let r = match run_case(dir, c) {
@@ -274,6 +290,7 @@ pub fn strategy() -> BoxedStrategy<Case> {
                 refusal,
                 abs_rd,
                 seed,
+                stale_dest: seed % 5 == 0,
             }
         })
         .boxed()
@@ -295,6 +312,7 @@ pub fn wrap_cases() -> Vec<Case> {
             refusal: Refusal::None,
             abs_rd: true,
             seed: 15,
+            stale_dest: false,
         });
     }
     out
